@@ -234,7 +234,9 @@ int ABT_future_test(ABT_future future, ABT_bool *is_ready)
     ABTI_future *p_future = ABTI_future_get_ptr(future);
     ABTI_CHECK_NULL_FUTURE_PTR(p_future);
 
+    ABTI_VERIF_BEGIN();
     size_t counter = ABTD_atomic_acquire_load_size(&p_future->counter);
+    ABTI_VERIF_END(ABTI_VEV_LOAD, p_future, 1, counter);
     *is_ready = (counter == p_future->num_compartments) ? ABT_TRUE : ABT_FALSE;
     return ABT_SUCCESS;
 }
@@ -290,10 +292,13 @@ int ABT_future_set(ABT_future future, void *value)
     counter++;
     /* Call a callback function before setting the counter. */
     if (counter == num_compartments && p_future->p_callback != NULL) {
+        ABTI_VERIF_EV(ABTI_VEV_CALLBACK, p_future, 0, 0);
         (*p_future->p_callback)(p_future->array);
     }
 
+    ABTI_VERIF_BEGIN();
     ABTD_atomic_release_store_size(&p_future->counter, counter);
+    ABTI_VERIF_END(ABTI_VEV_DATA, p_future, 1, counter);
 
     if (counter == num_compartments) {
         ABTI_waitlist_broadcast(p_local, &p_future->waitlist);
@@ -343,7 +348,9 @@ int ABT_future_reset(ABT_future future)
 
     ABTD_spinlock_acquire(&p_future->lock);
     ABTI_UB_ASSERT(ABTI_waitlist_is_empty(&p_future->waitlist));
+    ABTI_VERIF_BEGIN();
     ABTD_atomic_release_store_size(&p_future->counter, 0);
+    ABTI_VERIF_END(ABTI_VEV_DATA, p_future, 1, 0);
     ABTD_spinlock_release(&p_future->lock);
     return ABT_SUCCESS;
 }
